@@ -259,7 +259,7 @@ def check_error_rate(case):
 
 SUBS = [
     Sub("parity_gamma", check_parity, strategy=lambda: MC.parity_case(), quick=1500, thorough=40000, shards=16,
-        floors={"nt": 0.3, "control": 0.206, "ratio<1": 0.162, "missing_group": 0.15, "soft": 0.226,
+        floors={"nt": 0.3, "control": 0.2, "ratio<1": 0.153, "missing_group": 0.15, "soft": 0.226,
                 "control+label_event": 0.08, "mf_crosscheck": 0.01}),
     Sub("bgl_gamma", check_bgl, strategy=lambda: MC.loss_case(), quick=400, thorough=8000, shards=8,
         floors={"nt": 0.402, "clipped": 0.3}),
